@@ -511,7 +511,12 @@ def unroll_literal_loops(fn, max_rows=4):
                 # (rows of several columns only: `for p in (left, right):` is a loop the rules read as a loop)
                 names = [e.id for e in tg.elts] if isinstance(tg, ast.Tuple) and len(tg.elts) >= 2 \
                     and all(isinstance(e, ast.Name) for e in tg.elts) else None
-                if rows is not None and names is not None and not any(
+                # (rows of *objects to act on* — a loop variable is the receiver of a method call; tables of names and
+                # constants that build a dict are read as tables by the rules that know them)
+                acts = names is not None and any(
+                    isinstance(c_, ast.Call) and isinstance(c_.func, ast.Attribute) and isinstance(c_.func.value, ast.Name)
+                    and c_.func.value.id in names for b in st.body for c_ in ast.walk(b))
+                if rows is not None and names is not None and acts and not any(
                         isinstance(x, ast.Name) and x.id in names and isinstance(x.ctx, ast.Store) for b in st.body for x in ast.walk(b)):
                     maps = []
                     for r in rows:
